@@ -418,10 +418,14 @@ fn nested_too_deep(line: &str) -> bool {
                 ' ' | '\t' => {}
                 _ => run = 0,
             }
-            // a chain of binary operators nests once per operator as well
+            // a chain of binary operators nests once per operator as well; a '/' counts when it is
+            // known not to begin a comment
+            if previous == '/' {
+                chain += 1;
+            }
             match c {
                 ',' => chain = 0,
-                '+' | '-' | '*' | '/' | '%' | '&' | '|' | '^' | '<' | '>' | '=' => chain += 1,
+                '+' | '-' | '*' | '%' | '&' | '|' | '^' | '<' | '>' | '=' => chain += 1,
                 _ => {}
             }
             if depth > MAX_NESTING || run > MAX_NESTING || chain > 2 * MAX_NESTING {
